@@ -306,3 +306,5 @@ def run(chk):
     # the model-level functions hand the documented model quantities (incl. the user's SM Higgs mass) to the loop-level functions
     from . import glue
     glue.run(chk, 'C10')
+    from . import C10d
+    C10d.run(chk)
